@@ -97,13 +97,29 @@ def list_mutators(h, values, rich=True):
     return ev
 
 
-def mutator_events(ref, values, rich=True, handles=None):
+def twin_events(ref, h):
+    """Rewrite the handle's current content with type-twins (0 -> False, 1 -> True, 0.0 -> -0.0 ...): values that
+    compare == to what is stored but are different JSON values.  A built-in container stores them; a merge that
+    skips 'equal' entries silently keeps the old ones."""
+    node = ref.node(h)
+    tw = model.twin(node)
+    if model.exact_eq(tw, node):
+        return []
+    ev = [("op", h, "reset", (tw,))]
+    if isinstance(node, dict):
+        ev.append(("op", h, "update", (tw, {})))
+    return ev
+
+
+def mutator_events(ref, values, rich=True, handles=None, twins=True):
     out = []
     for h in (handles if handles is not None else ref.attached_handles()):
         if ref.handle_kind(h) == "dict":
             out += dict_mutators(h, values, rich=rich)
         else:
             out += list_mutators(h, values, rich=rich)
+        if twins:
+            out += twin_events(ref, h)
     return out
 
 
